@@ -338,10 +338,73 @@ def _g1(ctx, rid, roots, title):
         if entry and sorted(entry.get("members", comp)) == comp:
             r.info.append("allowed recursion %s: %s" % (rep, entry["reason"]))
             continue
-        r.finding(rep, "recursion", loc(F.fns[rep]["mir"]["blocks"][0]["term"]) if F.fns[rep]["mir"]["blocks"] else "-",
-                  "recursive call cycle {%s} reachable from the entry set: depth is bounded only by the data / input" % ", ".join(comp),
+        kind, why = recursion_bound(F, comp)
+        r.finding(rep, "recursion:" + kind, loc(F.fns[rep]["mir"]["blocks"][0]["term"]) if F.fns[rep]["mir"]["blocks"] else "-",
+                  "recursive call cycle {%s} reachable from the entry set: %s" % (", ".join(comp), why),
                   path=["call path: " + " -> ".join(path)])
     return r
+
+
+def recursion_bound(F, comp):
+    """('depth-bounded' | 'unbounded', explanation).  depth-bounded: some member takes an integer parameter that it tests
+    against a limit with an early error / return, and every call from inside the cycle back to that member passes that
+    parameter plus a positive constant - the recursion depth is then at most the limit.  Anything else is bounded only by
+    the data."""
+    from .origin import Body
+    members = [F.fns[p] for p in comp if p in F.fns and F.fns[p].get("hir")]
+    for f in members:
+        params = []
+        for i, prm in enumerate(f.get("params", [])):
+            for n in _walk(prm):
+                if n.get("k") == "Binding" and (n.get("ty") or "") in ("usize", "u32", "u64", "i32", "u16", "u8"):
+                    params.append((i, n["lid"], n.get("name")))
+        for pi, lid, pname in params:
+            # early exit when the parameter reaches a limit
+            guarded = False
+            for n in _walk(f["hir"]):
+                if n.get("k") == "If":
+                    c = _hq.peel(n["cond"])
+                    if c.get("k") == "Binary" and c.get("op") in (">=", ">", "==") and _hq.local_of(c["l"]) == lid and _hq.lit_value(c["r"]) is None:
+                        # the branch leaves the function unconditionally: its last statement / value is a `return` or an `Err(..)?`
+                        th = n.get("then") or {}
+                        blk = th.get("b") if th.get("k") == "Block" else None
+                        tail = None
+                        if blk is not None:
+                            tail = blk.get("expr") or ((blk["stmts"][-1].get("e") if blk["stmts"] else None))
+                        tl = tail
+                        while isinstance(tl, dict) and tl.get("k") in ("DropTemps", "Use"):
+                            tl = tl["e"]
+                        leaves = isinstance(tl, dict) and (tl.get("k") == "Ret" or (tl.get("k") == "Match" and tl.get("src") == "TryDesugar" and (_hq.callee(tl["scrut"]["args"][0]) if tl["scrut"].get("k") == "Call" and tl["scrut"].get("args") else "" or "").endswith("::Err")))
+                        if leaves:
+                            guarded = True
+            if not guarded:
+                continue
+            # every call back to f from inside the cycle passes param + k
+            bad = []
+            n_calls = 0
+            for g in members:
+                for d, c in _hq.calls_in(g["hir"]):
+                    if d != f["path"]:
+                        continue
+                    n_calls += 1
+                    args = _hq.call_args(c)
+                    a = _hq.peel(args[pi]) if pi < len(args) else {}
+                    ok = False
+                    if a.get("k") == "Binary" and a.get("op") == "+":
+                        lit = _hq.lit_value(a["r"]) if _hq.lit_value(a["r"]) is not None else _hq.lit_value(a["l"])
+                        try:
+                            ok = lit is not None and int(lit) >= 1
+                        except (TypeError, ValueError):
+                            ok = False
+                        if g is f and ok:
+                            ok = lid in (_hq.local_of(a["l"]), _hq.local_of(a["r"]))
+                    if not ok:
+                        bad.append(loc(c))
+            if n_calls and not bad:
+                return "depth-bounded", "depth is bounded by the limit `%s` is tested against in %s (every recursive call passes %s + k), the frames may still exhaust the stack before the limit is reached" % (pname, last(f["path"]), pname)
+            if n_calls and bad:
+                return "unbounded", "`%s` of %s is tested against a limit, but the recursive call(s) at %s do not pass %s + k: the limit does not bound the recursion, depth is bounded only by the data" % (pname, last(f["path"]), ", ".join(bad), pname)
+    return "unbounded", "depth is bounded only by the data / input"
 
 
 def rule_G1c(ctx):
@@ -462,6 +525,14 @@ def guard_build_links_validated(ctx, f):
     if not cands:
         return False, "public build() not found"
     b0 = cands[0]
+    # (a) the walk that validates the tree shape (rule G5) looks every followed link up with a checked accessor and returns Err
+    #     for a missing node: every link reachable from the root is then in range before a handler indexes with it
+    from .rules_build import _tree_walk_loops
+    for lp in _tree_walk_loops(b0):
+        unchecked = [n for n in _walk(lp) if n.get("k") == "Index"]
+        checked = [n for n in _walk(lp) if n.get("k") == "MethodCall" and n.get("m") in ("get", "get_mut")]
+        if checked and not unchecked:
+            return True, "build() walks every link reachable from the root with checked lookups and returns Err for a missing node (%s)" % loc(lp)
     search = [b0]
     for d, _n in _hq.calls_in(b0["hir"]):
         g = F.fns.get(d)
